@@ -16,7 +16,12 @@ type c11backend struct {
 	AllowedIPs []string
 }
 
+// a named non-struct type embedded at the top level
+type Tier string
+
 type c11ncfg struct {
+	Tier
+	CaféURL string // a non-ASCII lower-case letter directly before an initialism
 	UserIDs  []string
 	HTTPPort int16
 	MaxQPS   int8
@@ -28,8 +33,8 @@ type c11ncfg struct {
 }
 
 func HarnessC11Names() {
-	all := []string{"USER_IDS", "HTTP_PORT", "MAX_QPS", "LABELS", "BACKEND_ALLOWED_IPS", "USER_ID", "CITIES", "GAIN"}
-	decoys := []string{"USER_I_DS", "USER_ID_S", "USERIDS", "HTTPPORT", "H_T_T_P_PORT", "MAX_Q_P_S", "MAXQPS", "BACKEND_ALLOWED_I_PS", "ALLOWED_IPS"}
+	all := []string{"USER_IDS", "HTTP_PORT", "MAX_QPS", "LABELS", "BACKEND_ALLOWED_IPS", "USER_ID", "CITIES", "GAIN", "TIER", "CAFÉ_URL"}
+	decoys := []string{"L", "CAF_URL", "CAFÉURL", "CAFÉ_U_R_L", "USER_I_DS", "USER_ID_S", "USERIDS", "HTTPPORT", "H_T_T_P_PORT", "MAX_Q_P_S", "MAXQPS", "BACKEND_ALLOWED_I_PS", "ALLOWED_IPS"}
 	clear := func() {
 		for _, n := range all {
 			zzverif.Unsetenv(n)
@@ -72,6 +77,13 @@ func HarnessC11Names() {
 	}
 	// always present: an unquoted list element with an inner space, and a complex128 whose parts
 	// are not representable in float32
+	hTier, hCafe := zzverif.Bool("has_tier"), zzverif.Bool("has_cafe")
+	if hTier {
+		zzverif.Setenv("TIER", "gold")
+	}
+	if hCafe {
+		zzverif.Setenv("CAFÉ_URL", "http://c/")
+	}
 	zzverif.Setenv("CITIES", "New York,Boston ")
 	zzverif.Setenv("GAIN", "0.1+0.2i")
 	t := dials.NewType(ptrify.Pointerify(reflect.TypeOf(c11ncfg{}), reflect.Value{}))
@@ -100,6 +112,14 @@ func HarnessC11Names() {
 	if hIPs && !f("Backend").IsNil() {
 		ips := f("Backend").Elem().FieldByName("AllowedIPs")
 		zzverif.Assert(!ips.IsNil() && ips.Len() == 1 && ips.Index(0).String() == "10.0.0.1", "C11 BACKEND_ALLOWED_IPS: wrong value")
+	}
+	zzverif.Assert(f("Tier").IsNil() == !hTier, "C11 TIER (named scalar embedded at the top level): leaf set/unset wrongly")
+	if hTier && !f("Tier").IsNil() {
+		zzverif.Assert(f("Tier").Elem().String() == "gold", "C11 TIER: wrong value")
+	}
+	zzverif.Assert(f("CaféURL").IsNil() == !hCafe, "C11 CAFÉ_URL (non-ASCII letter before an initialism): leaf set although its variable is absent (a decoy was read), or unset although present")
+	if hCafe && !f("CaféURL").IsNil() {
+		zzverif.Assert(f("CaféURL").Elem().String() == "http://c/", "C11 CAFÉ_URL: wrong value")
 	}
 	ct := f("Cities")
 	zzverif.Assert(!ct.IsNil() && ct.Len() == 2 && ct.Index(0).String() == "New York", "C11 CITIES: an unquoted list element containing a space did not arrive as written")
